@@ -1,15 +1,34 @@
-(** * Proofs/Btor2Fix.v — the repaired reader ([parse_*_v Fix], patches/000N-fix-btor2-*.diff):
-    it never panics on supported operators, in either build profile, and every system it
-    accepts satisfies the full [sys_ok] and is closed. *)
+(** * Proofs/Btor2Fix.v — the repaired readers ([parse_*_v v] with [is_fix v], i.e. [Fix] =
+    patches/0001..0007-fix-btor2-*.diff and [Fix2] = [Fix] + patches/0009):
+    they never panic on supported operators, in either build profile, and every system they
+    accept satisfies the full [sys_ok] and is closed. *)
 From Coq Require Import List Lia Bool String Ascii NArith FMapPositive.
 From Patronus Require Import Expr ExprLemmas SysClosed Btor2Parse Btor2ExprFacts Btor2ParseProofs Btor2Refine Btor2NoCrash.
 Import ListNotations.
 Open Scope string_scope.
 Open Scope N_scope.
 
-Lemma fix_line_ok dbg st l st' :
-  parse_line_v Fix dbg st l = POk st' -> line_fix_pre st l = true /\ parse_line dbg st l = POk st'.
-Proof. cbn [parse_line_v]. destruct (line_fix_pre st l); [auto|discriminate]. Qed.
+(** every repaired variant checks at least [line_fix_pre] *)
+Lemma variant_pre_fix v st l : is_fix v = true -> variant_pre v st l = true -> line_fix_pre st l = true.
+Proof.
+  destruct v; cbn [is_fix variant_pre]; intros Hv H; [discriminate|exact H|].
+  apply andb_true_iff in H. tauto.
+Qed.
+
+Lemma fix_line_ok v dbg st l st' :
+  is_fix v = true ->
+  parse_line_v v dbg st l = POk st' -> line_fix_pre st l = true /\ parse_line dbg st l = POk st'.
+Proof.
+  intros Hv. unfold parse_line_v. destruct (variant_pre v st l) eqn:E; [|discriminate].
+  intros H. split; [eapply variant_pre_fix; eauto|exact H].
+Qed.
+
+Lemma fix2_line_ok dbg st l st' :
+  parse_line_v Fix2 dbg st l = POk st' -> ext_bv st l = true.
+Proof.
+  unfold parse_line_v. cbn [variant_pre]. destruct (line_fix_pre st l && ext_bv st l) eqn:E; [|discriminate].
+  intros _. apply andb_true_iff in E. tauto.
+Qed.
 
 Lemma fix_pre_parts st l :
   line_fix_pre st l = true -> line_pre st l = true /\ zero_sort_line l = false /\ prop_bool st l = true.
@@ -18,48 +37,52 @@ Proof.
 Qed.
 
 (** ** no panic *)
+Section Variant.
+Variable v : code_variant.
+Hypothesis Hv : is_fix v = true.
+
 Lemma fix_line_safe st l :
-  J st -> supported_line l = true -> no_panic (parse_line_v Fix true st l).
+  J st -> supported_line l = true -> no_panic (parse_line_v v true st l).
 Proof.
-  intros HJ Hs. cbn [parse_line_v]. destruct (line_fix_pre st l) eqn:E; [|apply no_panic_err].
-  apply parse_line_safe; auto. apply fix_pre_parts in E. tauto.
+  intros HJ Hs. unfold parse_line_v. destruct (variant_pre v st l) eqn:E; [|apply no_panic_err].
+  apply parse_line_safe; auto. apply (variant_pre_fix v st l Hv) in E. apply fix_pre_parts in E. tauto.
 Qed.
 
 Lemma fix_line_release st l :
-  J st -> supported_line l = true -> parse_line_v Fix false st l = parse_line_v Fix true st l.
+  J st -> supported_line l = true -> parse_line_v v false st l = parse_line_v v true st l.
 Proof.
-  intros HJ Hs. pose proof (fix_line_safe st l HJ Hs) as Hn. cbn [parse_line_v] in *.
-  destruct (line_fix_pre st l); [|reflexivity]. apply parse_line_ref. exact Hn.
+  intros HJ Hs. pose proof (fix_line_safe st l HJ Hs) as Hn. unfold parse_line_v in *.
+  destruct (variant_pre v st l); [|reflexivity]. apply parse_line_ref. exact Hn.
 Qed.
 
 Lemma fix_fold_safe ls : forall st err,
-  J st -> forallb supported_line ls = true -> no_panic (parse_fold_v Fix true ls st err).
+  J st -> forallb supported_line ls = true -> no_panic (parse_fold_v v true ls st err).
 Proof.
   induction ls as [|l ls IH]; intros st err HJ Hs; cbn [parse_fold_v]; [apply no_panic_ok|].
   cbn [forallb] in Hs. apply andb_true_iff in Hs. destruct Hs as [Hs1 Hs2].
   pose proof (fix_line_safe st l HJ Hs1) as Hl.
-  destruct (parse_line_v Fix true st l) as [st1| |k] eqn:E.
-  - apply IH; auto. apply fix_line_ok in E. destruct E as [_ E]. eapply parse_line_J; eauto.
+  destruct (parse_line_v v true st l) as [st1| |k] eqn:E.
+  - apply IH; auto. apply (fix_line_ok v _ _ _ _ Hv) in E. destruct E as [_ E]. eapply parse_line_J; eauto.
   - apply IH; auto.
   - exfalso. apply (Hl k). reflexivity.
 Qed.
 
 Lemma fix_fold_release ls : forall st err,
   J st -> forallb supported_line ls = true ->
-  parse_fold_v Fix false ls st err = parse_fold_v Fix true ls st err.
+  parse_fold_v v false ls st err = parse_fold_v v true ls st err.
 Proof.
   induction ls as [|l ls IH]; intros st err HJ Hs; cbn [parse_fold_v]; [reflexivity|].
   cbn [forallb] in Hs. apply andb_true_iff in Hs. destruct Hs as [Hs1 Hs2].
   rewrite (fix_line_release st l HJ Hs1).
-  destruct (parse_line_v Fix true st l) as [st1| |k] eqn:E; auto.
-  apply IH; auto. apply fix_line_ok in E. destruct E as [_ E]. eapply parse_line_J; eauto.
+  destruct (parse_line_v v true st l) as [st1| |k] eqn:E; auto.
+  apply IH; auto. apply (fix_line_ok v _ _ _ _ Hv) in E. destruct E as [_ E]. eapply parse_line_J; eauto.
 Qed.
 
 Theorem no_crash_fix ls :
-  forallb supported_line ls = true -> forall dbg k, parse_lines_v Fix dbg ls <> PPanic k.
+  forallb supported_line ls = true -> forall dbg k, parse_lines_v v dbg ls <> PPanic k.
 Proof.
   intros Hs dbg.
-  assert (Hd : no_panic (parse_lines_v Fix true ls)).
+  assert (Hd : no_panic (parse_lines_v v true ls)).
   { unfold parse_lines_v, parse_raw_v.
     apply no_panic_bind; [|intros [sy ren] _; apply no_panic_ok].
     apply no_panic_bind; [apply fix_fold_safe; auto; apply J_empty|].
@@ -143,20 +166,20 @@ Qed.
     that all satisfy the explicit checks *)
 Lemma fix_fold_accepts ls : forall st stf,
   inv st -> bools (p_bads st) -> bools (p_constraints st) ->
-  parse_fold_v Fix true ls st false = POk (stf, false) ->
+  parse_fold_v v true ls st false = POk (stf, false) ->
   parse_fold true ls st false = POk (stf, false) /\ existsb zero_sort_line ls = false /\
   inv stf /\ bools (p_bads stf) /\ bools (p_constraints stf).
 Proof.
   induction ls as [|l ls IH]; intros st stf Hinv Hb Hc H; cbn [parse_fold_v parse_fold existsb] in *.
   - inversion H; subst. auto.
-  - destruct (parse_line_v Fix true st l) as [st1| |k] eqn:E; [| |discriminate].
-    + apply fix_line_ok in E. destruct E as [Hpre E]. apply fix_pre_parts in Hpre. destruct Hpre as (_ & Hz & Hpb).
+  - destruct (parse_line_v v true st l) as [st1| |k] eqn:E; [| |discriminate].
+    + apply (fix_line_ok v _ _ _ _ Hv) in E. destruct E as [Hpre E]. apply fix_pre_parts in Hpre. destruct Hpre as (_ & Hz & Hpb).
       rewrite E, Hz. cbn [orb].
       destruct (parse_line_bools _ _ _ _ E Hpb Hb Hc) as [Hb1 Hc1].
       apply IH; auto. eapply parse_line_inv; eauto.
     + exfalso. clear - H. revert H. generalize st. induction ls as [|l' ls' IH']; intros st0 H; cbn [parse_fold_v] in H.
       * inversion H.
-      * destruct (parse_line_v Fix true st0 l'); try discriminate; eapply IH'; eauto.
+      * destruct (parse_line_v v true st0 l'); try discriminate; eapply IH'; eauto.
 Qed.
 
 Lemma props_1bit_final ren sy :
@@ -172,7 +195,7 @@ Proof.
 Qed.
 
 Theorem accepted_ok_fix_debug ls sy :
-  parse_lines_v Fix true ls = POk sy -> sys_ok sy = true /\ sys_closed sy.
+  parse_lines_v v true ls = POk sy -> sys_ok sy = true /\ sys_closed sy.
 Proof.
   intros H. unfold parse_lines_v in H. binv H r Hr. destruct r as [sy0 ren]. inversion H; subst sy. clear H.
   unfold parse_raw_v in Hr. binv Hr r Hf. destruct r as [st err]. destruct err; [discriminate|].
@@ -188,7 +211,7 @@ Qed.
 
 Theorem accepted_ok_fix ls dbg sy :
   forallb supported_line ls = true ->
-  parse_lines_v Fix dbg ls = POk sy -> sys_ok sy = true /\ sys_closed sy.
+  parse_lines_v v dbg ls = POk sy -> sys_ok sy = true /\ sys_closed sy.
 Proof.
   intros Hs H. destruct dbg; [apply (accepted_ok_fix_debug ls sy H)|].
   apply (accepted_ok_fix_debug ls sy). unfold parse_lines_v, parse_raw_v in *.
@@ -196,14 +219,31 @@ Proof.
 Qed.
 
 (** ** statements on texts *)
-Lemma text_no_crash_fix text :
-  supported text = true -> forall dbg k, parse_text_v Fix dbg text <> PPanic k.
+Lemma text_no_crash_variant text :
+  supported text = true -> forall dbg k, parse_text_v v dbg text <> PPanic k.
 Proof. unfold supported, parse_text_v. apply no_crash_fix. Qed.
 
-Lemma text_accepted_ok_fix text dbg sy :
-  supported text = true -> parse_text_v Fix dbg text = POk sy -> sys_ok sy = true /\ sys_closed sy.
+Lemma text_accepted_ok_variant text dbg sy :
+  supported text = true -> parse_text_v v dbg text = POk sy -> sys_ok sy = true /\ sys_closed sy.
 Proof. unfold supported, parse_text_v. apply accepted_ok_fix. Qed.
 
 (** where the shipped reader does not trip over a check, the repaired reader is the shipped reader *)
-Lemma fix_line_is_cur dbg st l : line_fix_pre st l = true -> parse_line_v Fix dbg st l = parse_line_v Cur dbg st l.
-Proof. intros H. cbn [parse_line_v]. rewrite H. reflexivity. Qed.
+Lemma fix_line_is_cur dbg st l : variant_pre v st l = true -> parse_line_v v dbg st l = parse_line_v Cur dbg st l.
+Proof. intros H. unfold parse_line_v. rewrite H. reflexivity. Qed.
+End Variant.
+
+Lemma text_no_crash_fix text :
+  supported text = true -> forall dbg k, parse_text_v Fix dbg text <> PPanic k.
+Proof. apply text_no_crash_variant. reflexivity. Qed.
+
+Lemma text_accepted_ok_fix text dbg sy :
+  supported text = true -> parse_text_v Fix dbg text = POk sy -> sys_ok sy = true /\ sys_closed sy.
+Proof. apply text_accepted_ok_variant. reflexivity. Qed.
+
+Lemma text_no_crash_fix2 text :
+  supported text = true -> forall dbg k, parse_text_v Fix2 dbg text <> PPanic k.
+Proof. apply text_no_crash_variant. reflexivity. Qed.
+
+Lemma text_accepted_ok_fix2 text dbg sy :
+  supported text = true -> parse_text_v Fix2 dbg text = POk sy -> sys_ok sy = true /\ sys_closed sy.
+Proof. apply text_accepted_ok_variant. reflexivity. Qed.
